@@ -19,7 +19,7 @@ func init() {
 		Clause: "C05 'coverings cover, interior coverings are contained, level limits are honoured': the coverer discards a cell only when the region reports that it does not intersect it (or, for interior " +
 			"coverings, that it cannot be used), marks a cell terminal in an interior covering only when the region contains it, recurses into every intersecting child, post-processes with " +
 			"Normalize/Denormalize using the same clamped parameters as the coverer itself, aligns levels to LevelMod AFTER clamping to MaxLevel, and the fast covering goes through normalizeCovering.",
-		Min: 8,
+		Min: 9,
 		Run: runCover,
 	})
 	core.Register(&core.Rule{
@@ -347,6 +347,68 @@ func runCover(c *core.Ctx) []core.Obligation {
 		add("normalizeCovering:clamp-then-align", fn, ok, "levels are clamped to MaxLevel first and aligned to the LevelMod grid last", why)
 	} else {
 		add("normalizeCovering:clamp-then-align", nil, false, "", "unresolved anchor")
+	}
+	// (9) the MaxCells merge loop of normalizeCovering never merges above MinLevel: every replacement of cells by an
+	// ancestor is reached only through a comparison of the ancestor's level with minLevel
+	if fn := c.Fn("s2", "coverer", "normalizeCovering"); fn != nil {
+		usesMinLevel := func(v ssa.Value) bool {
+			bo, ok := v.(*ssa.BinOp)
+			if !ok {
+				return false
+			}
+			for _, side := range []ssa.Value{bo.X, bo.Y} {
+				if fr, ok := core.AsFieldLoad(side); ok && fr.Name == "minLevel" {
+					return true
+				}
+			}
+			return false
+		}
+		guards := map[*ssa.BasicBlock]bool{}
+		for _, b := range fn.Blocks {
+			if iff, ok := b.Instrs[len(b.Instrs)-1].(*ssa.If); ok && usesMinLevel(iff.Cond) {
+				guards[b] = true
+			}
+		}
+		// the merge loop: the loop whose header compares len(covering) with maxCells
+		n, ok, why := 0, true, ""
+		for h, body := range loopsOf(fn) {
+			iff, isIf := h.Instrs[len(h.Instrs)-1].(*ssa.If)
+			if !isIf {
+				continue
+			}
+			bo, isBo := iff.Cond.(*ssa.BinOp)
+			if !isBo {
+				continue
+			}
+			isMax := false
+			for _, side := range []ssa.Value{bo.X, bo.Y} {
+				if fr, okf := core.AsFieldLoad(side); okf && fr.Name == "maxCells" {
+					isMax = true
+				}
+			}
+			if !isMax {
+				continue
+			}
+			for b := range body {
+				for _, in := range b.Instrs {
+					call, isCall := in.(*ssa.Call)
+					if !isCall || core.StaticCallee(call) == nil || core.StaticCallee(call).Name() != "replaceCellsWithAncestor" {
+						continue
+					}
+					n++
+					// every path from the loop header to this call passes a minLevel comparison
+					if !guards[b] && core.ReachableAvoiding(h, b, nil, guards) {
+						ok, why = false, "in the MaxCells merge loop cells are replaced by an ancestor on a path that never compares the ancestor's level with minLevel: with MinLevel > 0 and a small MaxCells the covering contains cells coarser than MinLevel"
+					}
+				}
+			}
+		}
+		if n == 0 {
+			ok, why = false, "unresolved anchor: no replaceCellsWithAncestor call in the merge loop"
+		}
+		add("normalizeCovering:merge-respects-minLevel", fn, ok, "every replacement by an ancestor in the MaxCells merge loop is behind a comparison of its level with minLevel", why)
+	} else {
+		add("normalizeCovering:merge-respects-minLevel", nil, false, "", "unresolved anchor")
 	}
 	return obs
 }
